@@ -189,7 +189,29 @@ def rule_m1(ctx):
     ctx.check(ok and srt, "M1-merge", c, "inputs sorted by lower bound", site(f), "merging assumes intervals sorted by their lower bound", "sorted + asserted")
 
 
+def rule_f1(ctx):
+    """`[0-9]*` / `[0-9]+` carry no sign: the integer values of the matched strings are the non-negative integers, so the interval's lower bound is 0."""
+    f = ctx.repo.func(Z3H, "numeric_intervals_from_full_range", "C15.F1")
+    c = f"{Z3H}:numeric_intervals_from_full_range"
+    rets = [r for r in walk_local(f) if isinstance(r, ast.Return) and isinstance(r.value, ast.Call) and call_name(r.value) == "Some"]
+    if len(rets) != 1:
+        raise Unrecognised("C15.F1", c, "expected one Some([...]) answer")
+    t = " ".join(src(rets[0].value).split())
+    if t == "Some([(0, sys.maxsize)])":
+        ctx.ok("F1-full-range-lower-bound", c, "[0-9]*/[0-9]+ -> [0, inf)", site(rets[0]), t)
+    elif t == "Some([(-sys.maxsize, sys.maxsize)])":
+        ctx.viol("F1-full-range-lower-bound", c, "[0-9]*/[0-9]+ -> [0, inf)", site(rets[0]),
+                 "the digits-only expressions Star/Plus(Range('0','9')) are given the interval (-inf, inf): they match no string with a sign, so the exact set of integer values is [0, inf) - "
+                 "the union of the inferred intervals contains every negative integer although no matched string denotes one")
+    else:
+        raise Unrecognised("C15.F1", c, f"answer {t} not understood")
+    g = " ".join(src(f).split())
+    if "regex.children()[0] == z3.Range('0', '9')" not in g or "z3.Z3_OP_RE_STAR" not in g or "z3.Z3_OP_RE_PLUS" not in g:
+        raise Unrecognised("C15.F1", c, "guard of the full-range case changed")
+
+
 def run(ctx) -> str:
+    ctx.guarded("F1", lambda: rule_f1(ctx))
     from . import c05
 
     ctx.guarded("R7", lambda: c05.rule_r7(ctx))
